@@ -25,6 +25,7 @@ Canonical(rel, pt) ==
     [] rel \in {"ChargeConjugation", "LeptonAsNeutrino"} -> pt.proj = 12
     [] rel = "EqualCharge"     -> pt.pos = 0
     [] rel = "TaggedSpectators" -> pt.pos = 0
+    [] rel = "TaggedIsRestricted" -> pt.pos = 0
 Instances ==
   {[rel |-> rel, pt |-> pt, terms |-> RelTerms(rel, pt)] :
      rel \in RELS, pt \in {q \in Points : WellFormed(q)} }
